@@ -10,7 +10,7 @@ from vf.spec import Ann, Ctx, Err, MapT, Ok, Prim, Program, Union_, Unspecified,
 PROP = "C02"
 SHARDS = {"quick": 8, "thorough": 16}
 TIME_CAP = {"quick": 70, "thorough": 900}
-REQUIRED = ["long_array_rejections", "rejections_compared", "multi_violation_data", "additivity_pairs", "order_checks", "determinism_checks", "multiplicity_checks", "default_message_runs", "programs"]
+REQUIRED = ["coerce_programs", "long_array_rejections", "rejections_compared", "multi_violation_data", "additivity_pairs", "order_checks", "determinism_checks", "multiplicity_checks", "default_message_runs", "programs"]
 RULE = ("C01 program space; data = model-valid data with k=1..5 compounded boundary mutations at random paths (so several simultaneous violations), plus atoms; "
         "for union-free programs all single wrong-type replacements at every path and all pairs at independent paths (additivity). "
         "A case = (type signature, options, datum); non-trivial when the rejection carries >= 2 entries or a nested location; distinct by hash.")
@@ -100,6 +100,9 @@ def check_program(env, prog, label, ndata):
     t = prog.t
     sig = t.sig()
     cx = prog.ctx(additional_properties=rng.random() < 0.3, fall_back_on_default=rng.random() < 0.15, aliaser=rng.choice(["identity", "identity", "camel", "custom"]))
+    if rng.random() < 0.15:
+        cx.coerce = True  # errors must be as complete under coercion (the model knows the coercion table)
+        env.count("coerce_programs")
     harness.reset_all()
     kw = harness.options(cx)
     o = harness.call(deserialization_method, prog.T, **kw)
@@ -120,8 +123,8 @@ def check_program(env, prog, label, ndata):
         data += long_list_variants(v, rng, atoms)
     ufree = union_free(t)
     plain_keys = all(isinstance(n.k, Prim) for n in t.walk() if isinstance(n, MapT))  # key rule and value rule may share loc and message
-    optsig = (cx.additional_properties, cx.fall_back_on_default, cx.aliaser)
-    base_wit = {"program": prog.source, "label": label, "options": {"additional_properties": cx.additional_properties, "fall_back_on_default": cx.fall_back_on_default, "aliaser": cx.aliaser}}
+    optsig = (cx.additional_properties, cx.fall_back_on_default, cx.aliaser, cx.coerce)
+    base_wit = {"program": prog.source, "label": label, "options": {"additional_properties": cx.additional_properties, "fall_back_on_default": cx.fall_back_on_default, "aliaser": cx.aliaser, "coerce": cx.coerce}}
     for d in data:
         real = harness.call(method, d)
         if real.kind != "verr":
